@@ -148,6 +148,48 @@ func checkC08(c *Ctx) {
 	}
 
 	// ---- seal / open ----
+	// the carry loop reaches the most significant byte: for a counter of one byte the loop body runs (a bound
+	// of i > 0 instead of i >= 0 never touches byte 0 and reports an overflow 2^8 steps early for every length)
+	if incF := p.Func("hpke", "encdecContext", "increment"); incF == nil {
+		c.undecided("C08.overflow", "increment of a one-byte counter can succeed", "anchor does not resolve", "")
+	} else {
+		construct := fname(incF) + ": the carry loop covers the most significant byte (a one-byte counter can be incremented)"
+		seqLoad := func(v ssa.Value, _ *ssa.Function) bool {
+			u, ok := v.(*ssa.UnOp)
+			if !ok || u.Op != token.MUL {
+				return false
+			}
+			fa, ok := u.X.(*ssa.FieldAddr)
+			return ok && fieldName(fa) == "sequenceNumber"
+		}
+		r := runGuard(&GuardQuery{P: p, Root: incF, ValAssumes: []ValAssume{{Name: "len(sequenceNumber) = 1", Match: seqLoad, Val: latSliceLen(1)}}})
+		succ := succAuto(incF)
+		ok, stores := false, 0
+		for _, ri := range r.Returns {
+			if succ.may(ri.Vals) {
+				ok = true
+			}
+		}
+		rs := runGuard(&GuardQuery{P: p, Root: incF, ValAssumes: []ValAssume{{Name: "len(sequenceNumber) = 1", Match: seqLoad, Val: latSliceLen(1)}},
+			ObserveStore: func(in *ssa.Function, st *ssa.Store, _ func(ssa.Value) lat) {
+				if in == incF {
+					if _, isIdx := st.Addr.(*ssa.IndexAddr); isIdx {
+						stores++
+					}
+				}
+			}})
+		_ = rs
+		switch {
+		case len(r.Sites["len(sequenceNumber) = 1"]) == 0:
+			c.undecided("C08.overflow", construct, "the sequence number is not read in the function", p.fnPos(incF))
+		case !ok:
+			c.bad("C08.overflow", construct, "with a one-byte sequence number no exit reports success: the loop never reaches index 0", p.fnPos(incF))
+		case stores == 0:
+			c.bad("C08.overflow", construct, "with a one-byte sequence number no store into the counter is executable: the loop never reaches index 0", p.fnPos(incF))
+		default:
+			c.ok("C08.overflow", construct, "a success exit and a store into the counter are executable for length 1", p.fnPos(incF))
+		}
+	}
 	inc := "(*hpke.encdecContext).increment"
 	c.guard(p, "C08.seal", "ciphertext released only if increment succeeded", sealF, GuardSpec{Assumes: []Assume{calleeAssume(latNonNil, -1, inc)}})
 	c.guard(p, "C08.open", "plaintext released only if increment succeeded", openF, GuardSpec{Assumes: []Assume{calleeAssume(latNonNil, -1, inc)}})
